@@ -23,6 +23,9 @@ pub struct Case {
     pub raw: Option<Vec<u8>>,
     /// bytes another connection sends first and then stays connected (a client blocked on k while the case's request runs)
     pub pre: Option<Vec<u8>>,
+    /// run on the server whose configuration switches the slow log, MONITOR support and statistics on, with a MONITOR
+    /// client attached and every command slow enough for the slow log
+    pub observed: bool,
 }
 
 const EXTRA_EXAMPLES: &[(&str, &[&str])] = &[
@@ -116,7 +119,7 @@ pub fn cases(thorough: bool) -> Vec<Case> {
                     for &s in states.iter() {
                         let mut c = full.clone();
                         c[pos] = val.clone();
-                        out.push(Case { name: name.clone(), cmd: c, pos, vclass: vc.to_string(), state: s, raw: None, pre: None });
+                        out.push(Case { name: name.clone(), cmd: c, pos, vclass: vc.to_string(), state: s, raw: None, pre: None, observed: false });
                     }
                 }
             } else if is_id || a == "$" || a == ">" || a == "*" {
@@ -124,7 +127,7 @@ pub fn cases(thorough: bool) -> Vec<Case> {
                     for &s in [0usize, 6].iter() {
                         let mut c = full.clone();
                         c[pos] = val.clone();
-                        out.push(Case { name: name.clone(), cmd: c, pos, vclass: format!("id:{}", vc), state: s, raw: None, pre: None });
+                        out.push(Case { name: name.clone(), cmd: c, pos, vclass: format!("id:{}", vc), state: s, raw: None, pre: None, observed: false });
                     }
                 }
             } else {
@@ -133,19 +136,19 @@ pub fn cases(thorough: bool) -> Vec<Case> {
                     for s in sts {
                         let mut c = full.clone();
                         c[pos] = val.clone();
-                        out.push(Case { name: name.clone(), cmd: c, pos, vclass: format!("str:{}", vc), state: s, raw: None, pre: None });
+                        out.push(Case { name: name.clone(), cmd: c, pos, vclass: format!("str:{}", vc), state: s, raw: None, pre: None, observed: false });
                     }
                 }
                 // a number where a word is expected
                 let mut c = full.clone();
                 c[pos] = b"9223372036854775807".to_vec();
-                out.push(Case { name: name.clone(), cmd: c, pos, vclass: "num-for-word".into(), state: 0, raw: None, pre: None });
+                out.push(Case { name: name.clone(), cmd: c, pos, vclass: "num-for-word".into(), state: 0, raw: None, pre: None, observed: false });
             }
         }
         // the plain example on every state (incl. the large ones)
         for s in 0..9 {
             if thorough || s < 3 || s >= 7 {
-                out.push(Case { name: name.clone(), cmd: full.clone(), pos: 0, vclass: "example".into(), state: s, raw: None, pre: None });
+                out.push(Case { name: name.clone(), cmd: full.clone(), pos: 0, vclass: "example".into(), state: s, raw: None, pre: None, observed: false });
             }
         }
     }
@@ -174,7 +177,7 @@ pub fn cases(thorough: bool) -> Vec<Case> {
             for (vc, second) in [("same-key-twice", b"k".to_vec()), ("second-key-in-the-same-shard", sibling.clone())] {
                 let cmd: Vec<Vec<u8>> = cmdline.iter().map(|a| if *a == "K2" { second.clone() } else { a.as_bytes().to_vec() }).collect();
                 for s in 0..7 {
-                    out.push(Case { name: cmdline[0].to_string(), cmd: cmd.clone(), pos: 2, vclass: vc.to_string(), state: s, raw: None, pre: None });
+                    out.push(Case { name: cmdline[0].to_string(), cmd: cmd.clone(), pos: 2, vclass: vc.to_string(), state: s, raw: None, pre: None, observed: false });
                 }
             }
         }
@@ -218,7 +221,7 @@ pub fn cases(thorough: bool) -> Vec<Case> {
                         bytes.extend(resp::cmd(&["EXEC"]));
                     }
                     let name = format!("burst against {}: {}{}", wname, burst.iter().map(|i| menu[*i].join(" ")).collect::<Vec<_>>().join(", "), if in_multi { " (in MULTI/EXEC)" } else { "" });
-                    out.push(Case { name: "(burst)".into(), cmd: vec![], pos: 0, vclass: name, state: 0, raw: Some(bytes), pre: Some(resp::cmd(wcmd)) });
+                    out.push(Case { name: "(burst)".into(), cmd: vec![], pos: 0, vclass: name, state: 0, raw: Some(bytes), pre: Some(resp::cmd(wcmd)), observed: false });
                 }
             }
         }
@@ -226,17 +229,17 @@ pub fn cases(thorough: bool) -> Vec<Case> {
     // scripts that never end / recurse / allocate
     for (vc, script) in [("infinite-loop", "while true do end"), ("deep-recursion", "local function f(n) return f(n+1)+1 end return f(1)"), ("big-string", "return string.rep('x', 8*1024*1024)"),
         ("big-table", "local t={} for i=1,1000000 do t[i]=i end return #t"), ("error-object", "error({1,2,3})"), ("pcall-loop", "return redis.pcall('EVAL','return 1','0')")] {
-        out.push(Case { name: "EVAL".into(), cmd: vec![b"EVAL".to_vec(), script.as_bytes().to_vec(), b"0".to_vec()], pos: 1, vclass: format!("script:{}", vc), state: 0, raw: None, pre: None });
+        out.push(Case { name: "EVAL".into(), cmd: vec![b"EVAL".to_vec(), script.as_bytes().to_vec(), b"0".to_vec()], pos: 1, vclass: format!("script:{}", vc), state: 0, raw: None, pre: None, observed: false });
     }
     // raw byte frames
     for (n, b) in super::c20::totality_inputs() {
         if b.len() > (8 << 20) {
             continue;
         }
-        out.push(Case { name: "(raw)".into(), cmd: vec![], pos: 0, vclass: n, state: 0, raw: Some(b), pre: None });
+        out.push(Case { name: "(raw)".into(), cmd: vec![], pos: 0, vclass: n, state: 0, raw: Some(b), pre: None, observed: false });
     }
     for (n, b) in super::c05::malformed_frames() {
-        out.push(Case { name: "(raw)".into(), cmd: vec![], pos: 0, vclass: n.to_string(), state: 0, raw: Some(b), pre: None });
+        out.push(Case { name: "(raw)".into(), cmd: vec![], pos: 0, vclass: n.to_string(), state: 0, raw: Some(b), pre: None, observed: false });
     }
     // truncated frames: every proper prefix of every encoding of the codec corpus (all RESP2/RESP3 frame types,
     // null forms, nested containers, command arrays), each on its own connection which is then closed
@@ -247,13 +250,19 @@ pub fn cases(thorough: bool) -> Vec<Case> {
             for cut in 1..enc.len() {
                 let p = enc[..cut].to_vec();
                 if seen.insert(p.clone()) {
-                    out.push(Case { name: "(raw)".into(), cmd: vec![], pos: 0, vclass: format!("truncated {}", crate::resp::show_bytes(&p)), state: 0, raw: Some(p), pre: None });
+                    out.push(Case { name: "(raw)".into(), cmd: vec![], pos: 0, vclass: format!("truncated {}", crate::resp::show_bytes(&p)), state: 0, raw: Some(p), pre: None, observed: false });
                 }
             }
         }
     }
-    out.push(Case { name: "(raw)".into(), cmd: vec![], pos: 0, vclass: "bulk header 512MiB then nothing".into(), state: 0, raw: Some(b"*2\r\n$3\r\nGET\r\n$536870912\r\nab".to_vec()), pre: None });
-    out.push(Case { name: "(raw)".into(), cmd: vec![], pos: 0, vclass: "1 MiB without CRLF".into(), state: 0, raw: Some(vec![b'+'; 1 << 20]), pre: None });
+    out.push(Case { name: "(raw)".into(), cmd: vec![], pos: 0, vclass: "bulk header 512MiB then nothing".into(), state: 0, raw: Some(b"*2\r\n$3\r\nGET\r\n$536870912\r\nab".to_vec()), pre: None, observed: false });
+    out.push(Case { name: "(raw)".into(), cmd: vec![], pos: 0, vclass: "1 MiB without CRLF".into(), state: 0, raw: Some(vec![b'+'; 1 << 20]), pre: None, observed: false });
+    // the same commands while somebody is watching: monitoring switched on in the configuration (the per-command
+    // bookkeeping has a second implementation for that), a MONITOR client attached, the slow log taking every command -
+    // every example, every word class and (thorough) every numeric class once more
+    let again: Vec<Case> = out.iter().filter(|c| c.raw.is_none() && (c.vclass == "example" || c.vclass.starts_with("str:") || c.vclass == "num-for-word" || (thorough && !c.vclass.starts_with("script:") && !c.vclass.contains("key")))
+        && !matches!(c.name.as_str(), "MONITOR" | "CLIENT" | "CONFIG" | "SLOWLOG")).map(|c| { let mut d = c.clone(); d.observed = true; d.vclass = format!("{} (observed)", c.vclass); d }).collect();
+    out.extend(again);
     out
 }
 
@@ -277,6 +286,12 @@ struct W {
     h: Harness,
     sentinel_ready: bool,
     started: usize,
+    /// the other server (monitoring on if `h` is the plain one and the other way round) and its sentinel flag
+    other: Harness,
+    other_sentinel_ready: bool,
+    h_is_observed: bool,
+    monitor: Option<Client>,
+    monitor_restarts: usize,
 }
 
 fn send_stepping(h: &mut Harness, cli: &mut Client, bytes: &[u8]) -> Result<(), String> {
@@ -366,8 +381,28 @@ fn follow_up(h: &mut Harness) -> Result<Option<String>, String> {
 }
 
 fn run_case(w: &mut W, c: &Case) -> Result<(String, Value), String> {
+    if c.observed != w.h_is_observed {
+        std::mem::swap(&mut w.h, &mut w.other);
+        std::mem::swap(&mut w.sentinel_ready, &mut w.other_sentinel_ready);
+        w.h_is_observed = c.observed;
+    }
     let force_fresh = w.h.srv.as_ref().map(|s| s.is_dead()).unwrap_or(true);
     w.h.ensure()?;
+    if c.observed {
+        // somebody is watching: a MONITOR client on this server instance, and a slow log that takes everything
+        if w.monitor_restarts != w.h.restarts || w.monitor.as_ref().map(|m| !m.is_open()).unwrap_or(true) {
+            w.h.aux_call(&["CONFIG", "SET", "slowlog-log-slower-than", "0"])?;
+            let mut m = w.h.srv.as_ref().unwrap().connect().map_err(|e| format!("connect: {:?}", e))?;
+            m.send(&resp::cmd(&["MONITOR"]));
+            let _ = w.h.srv.as_ref().unwrap().steps(3);
+            w.monitor = Some(m);
+            w.monitor_restarts = w.h.restarts;
+        }
+        if let Some(m) = w.monitor.as_mut() {
+            m.poll();
+            m.buf.clear();
+        }
+    }
     if force_fresh || !w.sentinel_ready {
         w.h.aux_call(&["SELECT", "1"])?;
         for s in SENTINEL {
@@ -469,7 +504,8 @@ fn run_case(w: &mut W, c: &Case) -> Result<(String, Value), String> {
 }
 
 pub fn handle_factory() -> impl FnMut(&str, &Value, &mut WorkerIo) -> (Value, bool) {
-    let mut w = W { h: Harness::new(SrvOpts::default()), sentinel_ready: false, started: 0 };
+    let mut w = W { h: Harness::new(SrvOpts::default()), sentinel_ready: false, started: 0, other: Harness::new(SrvOpts { monitoring: true, ..SrvOpts::default() }), other_sentinel_ready: false,
+        h_is_observed: false, monitor: None, monitor_restarts: usize::MAX };
     crate::WATCHDOG_LIMIT_MS.store(12_000, std::sync::atomic::Ordering::SeqCst);
     move |tier: &str, task: &Value, io: &mut WorkerIo| {
         let thorough = task["thorough"].as_bool().or_else(|| task["replay"]["thorough"].as_bool()).unwrap_or(tier == "thorough");
